@@ -169,6 +169,14 @@ pub fn process(
         | Operation::Swap
         | Operation::Bset
         | Operation::Bclr => 1,
+        // spm has the forms `spm` and `spm Z+`
+        Operation::Spm => {
+            if op_args.len() == 0 {
+                0
+            } else {
+                1
+            }
+        }
         // lpm/elpm have an implicit (r0, Z) form without operands
         Operation::Lpm | Operation::Elpm => {
             if op_args.len() == 0 {
@@ -394,6 +402,15 @@ pub fn process(
                 opcode_2part = (k as u16) & 0xffff;
 
                 long_opcode = true;
+            }
+        }
+        Operation::Spm => {
+            // `spm Z+`    1001 0101 1111 1000
+            if op_args.len() == 1 {
+                match op_args[0].get_index()? {
+                    IndexOps::PostIncrement(Reg16::Z) => opcode |= 0x0010,
+                    _ => bail!("spm takes no operand or Z+"),
+                }
             }
         }
         Operation::Ld | Operation::St | Operation::Ldd | Operation::Std => {
